@@ -223,7 +223,26 @@ func FeasibleEdges(p *ssa.Phi) []ssa.Value {
 			continue
 		}
 		if u.Block() == b {
-			continue // the test itself / spills
+			// the test itself, or a spill of the merged value into a local: then the uses of that local count
+			if st, isStore := u.(*ssa.Store); isStore && st.Val == ssa.Value(p) {
+				if al, isAlloc := st.Addr.(*ssa.Alloc); isAlloc && al.Referrers() != nil {
+					for _, r := range *al.Referrers() {
+						if r == u || r.Block() == b {
+							continue
+						}
+						if _, dbg := r.(*ssa.DebugRef); dbg {
+							continue
+						}
+						n++
+						for si := 0; si < 2; si++ {
+							if ReachableAvoiding(fn, r, []Edge{{b, si}}, nil) {
+								behindOK[si] = false
+							}
+						}
+					}
+				}
+			}
+			continue
 		}
 		n++
 		for si := 0; si < 2; si++ {
@@ -323,10 +342,67 @@ func Resolve(v ssa.Value) ssa.Value {
 				v = src
 				continue
 			}
+			if src := FieldLoadSource(u); src != nil {
+				v = src
+				continue
+			}
 		}
 		return v
 	}
 	return v
+}
+
+// FieldLoadSource resolves a load of a field of a local struct, `*(&local.f)`, when the struct was built in one place:
+// the field was stored exactly once through &local.f, or the local is a copy of another local struct (a composite
+// literal, a value returned through an expanded helper) whose field f was stored exactly once.
+func FieldLoadSource(u *ssa.UnOp) ssa.Value {
+	fa, ok := u.X.(*ssa.FieldAddr)
+	if !ok {
+		return nil
+	}
+	return fieldOfLocal(fa.X, fa.Field, 0)
+}
+
+func fieldOfLocal(base ssa.Value, field int, depth int) ssa.Value {
+	if depth > 4 {
+		return nil
+	}
+	al, ok := base.(*ssa.Alloc)
+	if !ok || al.Referrers() == nil {
+		return nil
+	}
+	var fieldStores []*ssa.Store
+	var whole []*ssa.Store
+	for _, r := range *al.Referrers() {
+		switch x := r.(type) {
+		case *ssa.FieldAddr:
+			if x.Field != field || x.Referrers() == nil {
+				continue
+			}
+			for _, rr := range *x.Referrers() {
+				if st, ok := rr.(*ssa.Store); ok && st.Addr == ssa.Value(x) {
+					fieldStores = append(fieldStores, st)
+				}
+			}
+		case *ssa.Store:
+			if x.Addr == ssa.Value(al) {
+				whole = append(whole, x)
+			}
+		case ssa.CallInstruction:
+			return nil // the address escapes: anything may write it
+		}
+	}
+	if len(fieldStores) == 1 && len(whole) == 0 {
+		return fieldStores[0].Val
+	}
+	if len(fieldStores) == 0 && len(whole) == 1 {
+		// a copy of another struct value
+		src := Strip(whole[0].Val)
+		if ld, ok := src.(*ssa.UnOp); ok && ld.Op == token.MUL {
+			return fieldOfLocal(ld.X, field, depth+1)
+		}
+	}
+	return nil
 }
 
 // ConstOf returns the constant value behind v, if any.
